@@ -92,6 +92,15 @@ class C12(core.Check):
         n_inputs = rw.choice([0, 0, 1, 2])
         inputs = [rw.randint(1, 5) for _ in range(n_inputs)]
         driver = "main" if rw.random() < 0.25 else "world"
+        rr = sub_rng(seed, self.id, run, "repl")
+        repl = None
+        if rr.random() < 0.07:
+            # a REPL session: (optionally a line that fails inside a structure,) the program, a probe line; every line that
+            # finishes normally must be balanced and see the top-level context, whatever happened to earlier lines
+            driver = "repl"
+            repl = dict(fail=rr.choice([None, "3 ( 1 0 % )", "5 λ 1 0 % ; †", "@q:1| 1 0 % ; 5 @q;", "2 ( 3 ( 1 0 % ) )",
+                                        "1 { 1 0 % }", "3 ƛ 1 0 % ; ,"]),
+                        probe=rr.choice(["n", "n ,", "2 ( n , )", "3 λ n ; †", "?"]))
         sched = []
         if driver == "world" and rs.random() < 0.7:
             for _ in range(rs.randint(1, 5)):
@@ -99,6 +108,14 @@ class C12(core.Check):
                               rs.randint(1, 4)])
             sched.sort(key=lambda e: e[0])
         case = dict(nodes=nodes, inputs=inputs, driver=driver, sched=sched, final_output=rw.random() < 0.8)
+        if repl:
+            case["repl"] = repl
+            case["sched"] = []
+        if rr.random() < 0.08:
+            # an EARLIER execution in the same process that ends inside a structure (exit, error): the next program gets a
+            # new Context and must start from -- and return to -- the initial depth
+            case["prelude"] = rr.choice(["5 ( n 3 = [ Q ] )", "3 λ Q ; †", "2 ( 1 0 % )", "4 λ 1 0 % ; †", "@q:1| Q ; 5 @q;",
+                                         "3 ƛ Q ; ,", "2 ( 3 ( Q ) )", "1 { Q }"])
         rf = sub_rng(seed, self.id, run, "faults")
         if rf.random() < 0.3:
             # element failure at the k-th call of a seeded element function: the program either aborts (not judged) or
@@ -113,6 +130,8 @@ class C12(core.Check):
         try:
             if case.get("driver") == "main":
                 out = self.run_main(case)
+            elif case.get("driver") == "repl":
+                out = self.run_repl(case)
             else:
                 out = self.run_world(case)
         finally:
@@ -124,13 +143,58 @@ class C12(core.Check):
         return out
 
     def hist(self, case, text):
-        return core.digest([text, case.get("sched"), case.get("driver"), case.get("inputs")])
+        return core.digest([text, case.get("sched"), case.get("driver"), case.get("inputs"), case.get("repl"), case.get("prelude")])
+
+    def self_contained(self, case):
+        return bool(case.get("prelude"))
+
+    def run_prelude(self, case, log):
+        """an earlier execute_vyxal in this process (its own Context); how it ends does not matter"""
+        pre = case.get("prelude")
+        if not pre:
+            return
+        world.World(inputs=[])  # resets the seams
+        main = self.m["main"]
+        old_out = sys.stdout
+        sys.stdout = world.RecordingStdout()
+        world.CLOCK.start(budget=STEP_BUDGET, count_string=True)
+        outcome = "ok"
+        try:
+            with world.rec_limit(3000):
+                main.execute_vyxal(pre, "eD", [])
+        except SystemExit:
+            outcome = "exit"
+        except (world.StepBudgetExceeded, world.ValueTooBig):
+            outcome = "budget"
+        except Exception as e:
+            outcome = "raised:" + type(e).__name__
+        finally:
+            world.CLOCK.stop()
+            sys.stdout = old_out
+        log.append(dict(prelude=pre, outcome=outcome))
+
+    def fresh_context_violation(self, w, case, text, log):
+        d = w.depths()
+        if d == (1, 1, 2, 0) and w.ctx.context_values[-1] == 0 and type(w.ctx.context_values[-1]) is int:
+            return None
+        delta = tuple(a - b for a, b in zip(d, (1, 1, 2, 0)))
+        which = "".join(("+" if x > 0 else "-") + nm for x, nm in zip(delta, ("cv", "in", "st", "fs")) if x) or "top-context"
+        sig = f"depth:{which}:fresh-context:{'after-prelude' if case.get('prelude') else 'first'}"
+        log.append(dict(violation=sig, depths=list(d)))
+        return dict(verdict=VIOLATION, sig=sig, log=log, steps=0, hist=self.hist(case, text),
+                    detail=f"a NEW Context (prelude={case.get('prelude')!r}) starts at depths {d} with context_values "
+                           f"{w.ctx.context_values!r}: expected (1, 1, 2, 0) and [0]")
 
     def run_world(self, case):
         text = progs.render_body(case["nodes"])
+        log = []
+        self.run_prelude(case, log)
         w = world.World(inputs=case["inputs"])
+        v_ = self.fresh_context_violation(w, case, text, log)
+        if v_:
+            return v_
         w.ctx.dictionary_compression = False  # raw strings: code handed to Ė must not be dictionary-decompressed
-        log, cov, faults = [dict(program=text)], set(), {}
+        log, cov, faults = log + [dict(program=text)], set(), {}
         try:
             structs = w.parse(text)
         except Exception as e:
@@ -284,6 +348,7 @@ class C12(core.Check):
         m = self.m
         main = m["main"]
         log, cov = [dict(program=text, driver="main")], set()
+        self.run_prelude(case, log)
         created = []
         Base = m["context"].Context
 
@@ -343,6 +408,73 @@ class C12(core.Check):
         return dict(verdict=OK, sig="", log=log, steps=steps, cov=sorted(cov), hist=self.hist(case, text),
                     probes={"exit_in_prog": int(bool(exits)), "driver_main": 1})
 
+    def run_repl(self, case):
+        """Driver C: vyxal.main.repl() fed from the stdin seam, one Context for the whole session.  The depth tuple is
+        taken where the REPL prints a line's result, i.e. exactly when a line has finished normally."""
+        text = progs.render_body(case["nodes"])
+        main = self.m["main"]
+        rp = case.get("repl") or {}
+        lines = ([rp["fail"]] if rp.get("fail") else []) + [text, rp.get("probe") or "n"]
+        log, cov = [dict(program=text, driver="repl", lines=lines)], {"driver:repl"}
+        self.run_prelude(case, log)
+        w = world.World(inputs=[], stdin=lines, stdin_after="EOF")
+        fault = case.get("fault")
+        if fault:
+            FAULTS.arm(fault["target"], fault["at"], fault["exc"])
+        else:
+            FAULTS.disarm()
+        records = []
+        real_print = main.vy_print
+
+        def observing_print(*a, **k):
+            ctx_ = k.get("ctx")
+            if ctx_ is not None and sys._getframe(1).f_code.co_name == "repl":
+                records.append(((len(ctx_.context_values), len(ctx_.inputs), len(ctx_.stacks), len(ctx_.function_stack)),
+                                world.to_model(ctx_.context_values[-1], self.m["LazyList"].LazyList, 8)
+                                if ctx_.context_values else "empty", world.STDIN.reads))
+            return real_print(*a, **k)
+
+        old_out = sys.stdout
+        main.vy_print = observing_print
+        sys.stdout = w.out
+        outcome = None
+        world.CLOCK.start(budget=STEP_BUDGET, count_string=True)
+        try:
+            with world.rec_limit(3000):
+                main.repl()
+        except EOFError:
+            outcome = None  # the session's input is over
+        except world.StepBudgetExceeded:
+            outcome = "budget"
+        except world.ValueTooBig:
+            outcome = "too-big"
+        except SystemExit:
+            outcome = "exit"
+        except RecursionError:
+            outcome = "raised:RecursionError"
+        except Exception as e:
+            outcome = "raised:" + type(e).__name__  # on the given tree an error ends the session
+        finally:
+            steps = world.CLOCK.stop()
+            sys.stdout = old_out
+            main.vy_print = real_print
+        log.append(dict(ev="repl", outcome=outcome or "eof", records=[[list(d), t, n] for d, t, n in records]))
+        if outcome in ("budget", "too-big") or not records:
+            return dict(verdict=DISCARD, sig=outcome or "no-line-finished", log=log, steps=steps, hist=None)
+        base = (1, 1, 1, 0)
+        for d, top, nread in records:
+            if d != base or top != 0:
+                delta = tuple(a - b for a, b in zip(d, base))
+                which = "".join(("+" if x > 0 else "-") + nm for x, nm in zip(delta, ("cv", "in", "st", "fs")) if x) or "top-context"
+                sig = f"depth:{which}:repl:{'after-error' if rp.get('fail') else 'plain'}"
+                log.append(dict(violation=sig))
+                return dict(verdict=VIOLATION, sig=sig, log=log, steps=steps, cov=sorted(cov), hist=self.hist(case, text),
+                            detail=f"REPL session {lines!r}: the line read at stdin read {nread} finished normally at depths {d} "
+                                   f"(expected {base}) with top context {top!r}")
+        cov.add("repl-after-error" if rp.get("fail") else "repl-plain")
+        return dict(verdict=OK, sig="", log=log, steps=steps, cov=sorted(cov), hist=self.hist(case, text),
+                    probes={"repl_sessions": 1, "repl_lines_finished": len(records)})
+
     # ------------------------------------------------------------------ shrinking
     def shrink(self, case):
         if case.get("sched"):
@@ -353,6 +485,10 @@ class C12(core.Check):
             yield dict(case, nodes=nodes)
         if case.get("inputs"):
             yield dict(case, inputs=[])
+        if case.get("prelude"):
+            yield {k: v for k, v in case.items() if k != "prelude"}
+        if (case.get("repl") or {}).get("fail"):
+            yield dict(case, repl=dict(case["repl"], fail=None))
         if case.get("final_output", True):
             yield dict(case, final_output=False)
         if case.get("fault"):
